@@ -20,6 +20,21 @@ int64_t nv_g;                                /* ghost: an arbitrary other sample
 #define NV_BITOF(byte, s) ((((byte) >> (7 - (s) % 8)) & 1) != 0)
 #define NV_BIT(m, s) NV_BITOF((m)->p[(s) / 8], s)
 
+/* make_mask(dims): rank-1 dimensions and the assumed contracts of the tensor constructor / zero() */
+struct nv_dims1 { int64_t d[1]; };            /* tensor_dims_t<1> = std::array<tensor_size_t, 1> */
+/* tensor_mem_t<uint8_t, 1>(dims): allocates size(dims) elements of unspecified content (negative size: undefined) */
+static struct nv_mask nv_mask_alloc(struct nv_dims1 dims)
+{
+  struct nv_mask m;
+  __CPROVER_assert(dims.d[0] >= 0, "tensor_mem_t(dims): non-negative size");
+  m.n = dims.d[0];
+  m.p = malloc(m.n);
+  __CPROVER_assume(m.p != NULL);
+  return m;
+}
+/* tensor.zero(): every element becomes 0 */
+static void nv_mask_zero(struct nv_mask* m) { __CPROVER_array_set(m->p, (uint8_t)0); }
+
 #define NV_CONTRACT_mask_setbit \
 __CPROVER_requires(NV_MASK_OK(mask) && 0 <= sample && sample < nv_samples && 0 <= nv_g && nv_g < nv_samples) \
 __CPROVER_assigns(mask->p[sample / 8]) \
@@ -36,17 +51,26 @@ __CPROVER_requires(NV_MASK_OK(mask) && 0 <= sample && sample < nv_samples) \
 __CPROVER_assigns() \
 __CPROVER_ensures(__CPROVER_return_value == NV_BIT(mask, sample))
 
-/* optional(mask, samples): "no value is missing" may only be reported if every sample's bit is set (ghost index);
- * reads bytes < (samples+7)/8 only. */
+/* optional(mask, samples) <=> some sample in [0, samples) has no value:
+ *   false ("no value is missing") only if every sample's bit is set            (ghost index nv_g);
+ *   true only if some sample's bit is clear: the witness is the last mask byte the function read (recorded by the
+ *   element-access stub below, which changes nothing else) -- that byte has a clear bit at a position that belongs to
+ *   a sample < samples (the unused tail bits of the last byte do not count);
+ *   reads bytes < (samples+7)/8 only (pointer checks). */
+int64_t nv_w_byte;                           /* ghost witness: index of the mask byte read last */
+static const uint8_t* nv_mask_at(const struct nv_mask* m, int64_t i) { nv_w_byte = i; return &m->p[i]; }
+/* bits of byte b that belong to no sample (positions >= samples): the low 8 - samples%8 bits of the last byte */
+#define NV_TAIL(b, samples) (((samples) % 8 != 0 && (b) == (samples) / 8) ? (0xFF >> ((samples) % 8)) : 0)
 #define NV_CONTRACT_mask_optional \
 __CPROVER_requires(NV_MASK_OK(mask) && samples == nv_samples && 0 <= nv_g && nv_g < nv_samples) \
-__CPROVER_assigns() \
-__CPROVER_ensures(!__CPROVER_return_value ==> NV_BIT(mask, nv_g))
+__CPROVER_assigns(nv_w_byte) \
+__CPROVER_ensures(!__CPROVER_return_value ==> NV_BIT(mask, nv_g)) \
+__CPROVER_ensures(__CPROVER_return_value ==> (0 <= nv_w_byte && nv_w_byte < NV_BYTES(samples) && (mask->p[nv_w_byte] | NV_TAIL(nv_w_byte, samples)) != 0xFF))
 #define NV_LOOP_mask_optional_1 \
-__CPROVER_assigns(byte) \
+__CPROVER_assigns(byte, nv_w_byte) \
 __CPROVER_loop_invariant(0 <= byte && byte <= bytes && (nv_g / 8 < byte ==> mask->p[nv_g / 8] == 0xFF)) \
 __CPROVER_decreases(bytes - byte)
 #define NV_LOOP_mask_optional_2 \
-__CPROVER_assigns(sample) \
+__CPROVER_assigns(sample, nv_w_byte) \
 __CPROVER_loop_invariant(8 * bytes <= sample && sample <= (samples > 8 * bytes ? samples : 8 * bytes) && (nv_g < sample ==> NV_BIT(mask, nv_g))) \
 __CPROVER_decreases(samples - sample)
